@@ -334,16 +334,22 @@ class OptionsDictionary(object):
         None
             Yields None after entering a temporary context.
         """
-        for option, val in kwargs.items():
-            if option not in self._context_cache:
-                self._context_cache[option] = []
-            self._context_cache[option].append(self[option])
-            self[option] = val
-        yield
-        for option in kwargs:
-            self[option] = self._context_cache[option].pop()
-            if len(self._context_cache[option]) == 0:
-                self._context_cache.pop(option)
+        changed = []
+        try:
+            for option, val in kwargs.items():
+                old = self[option]
+                self[option] = val
+                if option not in self._context_cache:
+                    self._context_cache[option] = []
+                self._context_cache[option].append(old)
+                changed.append(option)
+            yield
+        finally:
+            # restore what was changed, also when the body (or entering) raised
+            for option in reversed(changed):
+                self[option] = self._context_cache[option].pop()
+                if len(self._context_cache[option]) == 0:
+                    self._context_cache.pop(option)
 
     def declare(self, name, default=_UNDEFINED, values=None, types=None, desc='',
                 upper=None, lower=None, check_valid=None, allow_none=False, recordable=True,
